@@ -36,16 +36,16 @@ CLAIMED = {
     "C11": ("exhaustive enumeration of substitution configurations (all maps new(m)->old(n), all kind assignments, window offsets across the register/spill boundary, three backends): the code the real Substitute::code_statement emits is emulated from a state of unique sentinels and the final registers, spill slots, reference counts and free list are compared with the simultaneous-assignment specification; plus random larger maps with shared blocks",
             "Exhaustive for m,n <= 4 (quick) / <= 5 (thorough) per backend (evidence: exhaustive=true when the enumeration completed); larger maps sampled.",
             "Trusted: the three emulators; dead temporaries beyond the new environment are not constrained.", "6/C11"),
-    "C12": ("structural monitors (type/scope checkers for Core, uniquified Core, focused Core, AxCut, linear AxCut) on every value the real stages produce; panics caught around every stage and all three code generators",
+    "C12": ("structural monitors (type/scope checkers for Core, uniquified Core, focused Core, AxCut, linear AxCut) on every value the real stages produce; panics caught around every stage and all three code generators; inputs: generated programs, corpus, accepted survivors of token mutations and of the single structured edits of C15 (scope escapes first)",
             "Held on K accepted programs; capacity assertions are counted, not judged.",
             "Trusted: the harness' checkers (DESIGN 4).", "6/C12"),
-    "C14": ("static label-table and operand-range monitor over every instruction of the printed text of all three backends; GNU as (x86-64, after syntax-only transliteration), clang's integrated assembler (AArch64) and clang's RISC-V assembler (rv64 pseudo-assembly after a syntax-only transliteration; conditional branches written in the relaxed form) as acceptance oracles; jump-table stride measured from the objects' symbol tables; second pass re-using generated definition names",
+    "C14": ("static label-table and operand-range monitor over every instruction of the printed text of all three backends; GNU as (x86-64, after syntax-only transliteration), clang's integrated assembler (AArch64) and clang's RISC-V assembler (rv64 pseudo-assembly after a syntax-only transliteration; conditional branches written in the relaxed form) as acceptance oracles; jump-table stride measured from the objects' symbol tables; second pass re-using generated definition names; directed programs whose table/entry and entry/entry labels are aimed at each other",
             "Held on K emitted files per backend (hostile identifiers, large jump tables, boundary literals).",
             "Trusted: the per-ISA operand-range tables of the harness; GNU as stands in for yasm (not installed); RISC-V output is pseudo-assembly: judged by the harness' validator and, transliterated, by clang --target=riscv64 (branch distance not judged).", "6/C14"),
-    "C15": ("acceptance monitor on well-typed-by-construction programs plus 29 classes of certainly ill-typed single edits applied at recorded syntactic sites; oracle = result of parse_module + Program::check",
+    "C15": ("acceptance monitor on well-typed-by-construction programs plus 31 classes of certainly ill-typed single edits applied at recorded syntactic sites; oracle = result of parse_module + Program::check",
             "Held on K generated programs and N mutants; per-class counts of applied and rejected mutants are in the evidence.",
             "Trusted: the generator's own typing discipline (DESIGN appendix A).", "6/C15"),
-    "C17": ("byte comparison of every printable stage output across fresh processes with different environments (harness child processes and the real scc binary), after other compilations in the same process (labels renamed by first occurrence), across every order of stage requests to one driver::Driver, and between the stage commands of scc and scc codegen --print-ir",
+    "C17": ("byte comparison of every printable stage output across fresh processes with different environments (harness child processes and the real scc binary), after other compilations in the same process (labels renamed by first occurrence), across every order of stage requests to one driver::Driver, and between the stage commands of scc and scc codegen --print-ir; standard output of the stage commands compared between a pipe, a narrow COLUMNS/LINES environment and a 43-column pseudo terminal",
             "Held on K programs x N fresh processes; evidence reports the number of distinct outputs per stage (must be 1).",
             "Trusted: the OS gives each process a fresh hash seed.", "6/C17"),
     "C18": ("fault-injection style input fuzzing: token/character mutations, nesting, special programs, valid programs over non-regular / mutually recursive types and their mutations, repository corpus mutations; panics caught in-process (8 MiB stack like the real tool), aborts/timeouts attributed through a current-case file, real scc binary on a sample",
